@@ -741,7 +741,7 @@ fn search(prop: &str, s: &mut Search) -> (usize, Option<Case>) {
         // only after dozens of equal values)
         if prop == "C08" && s.rng.below(6) == 0 { let c0 = *c.stream.last().unwrap(); let c1 = s.rng.pick(&[c0, c0, 1.0, 0.0]); let c1 = if positive_only(k) || c.inner == "ln_return" { c1.abs() + 0.5 } else { c1 }; for _ in 0..140 { c.stream.push(c1); } }
         // C09: the normalised indicators must stay finite in tiny units as well (d_sum^2 underflows long before d_sum does)
-        if prop == "C09" && matches!(k, "trend_flex" | "re_flex") && s.rng.below(8) == 0 { let f = (2.0f64).powi(-600); for x in c.stream.iter_mut().chain(c.stream2.iter_mut()) { *x *= f; } }
+        if (prop == "C09" || (prop == "C08" && c.inner == "echo")) && matches!(k, "trend_flex" | "re_flex") && s.rng.below(8) == 0 { let f = (2.0f64).powi(-600); for x in c.stream.iter_mut().chain(c.stream2.iter_mut()) { *x *= f; } }
         // views that recompute their answer from the window (or from a fading recursion) at every step keep no trace of a value that has left
         // it: a head of huge values (x 2^60) must leave no rounding residue behind - a running sum introduced as an optimisation does.  Only for
         // views whose code on the pinned tree has that structure (accumulating views drift legitimately: that is C16, not claimed)
